@@ -257,6 +257,19 @@ impl Parameter {
                 return false;
             }
         }
+        // The braces are only trimmed if they match each other; i.e., if the whole
+        // argument is a single group (TeX.2021.399). In {x}{y} they don't.
+        let mut depth = 0;
+        for token in &list[..list.len() - 1] {
+            match token.value() {
+                token::Value::BeginGroup(_) => depth += 1,
+                token::Value::EndGroup(_) => depth -= 1,
+                _ => (),
+            }
+            if depth == 0 {
+                return false;
+            }
+        }
         true
     }
 
